@@ -16,13 +16,26 @@ Definition exn_name (e : exn) : string :=
   end.
 Definition obs_res (r : res) : obs := match r with Ok => OTag "ok" | Err e => OTag (exn_name e) end.
 
-(* input: ((Server value, Date value), calls) *)
-Definition run_case (i : (text * text) * list op) : obs :=
-  let '(env, ops) := i in
-  let '(rs, fin, w) := run env ops in
-  OList [OList (map obs_res rs);
-         match fin with None => ONone | Some r => obs_res r end;
-         OBytes w].
+(* the three application-facing routes that end in HTTP1Connection.write_headers *)
+Inductive scenario :=
+| Handler (ops : list op)                               (* RequestHandler calls, then flush *)
+| Raw (c : N) (reason : text) (hs : list hop)            (* own HTTPHeaders + write_headers *)
+| Wsgi (status : text) (hs : list (text * text)).        (* WSGIContainer start_response *)
+
+(* input: ((Server value, Date value), scenario) *)
+Definition run_case (i : (text * text) * scenario) : obs :=
+  let '(env, sc) := i in
+  match sc with
+  | Handler ops =>
+      let '(rs, fin, w) := run env ops in
+      OList [OList (map obs_res rs);
+             match fin with None => ONone | Some r => obs_res r end;
+             OBytes w]
+  | Raw c rsn hs =>
+      let '(rs, fin, w) := run_raw c rsn hs in
+      OList [OList (map obs_res rs); obs_res fin; OBytes w]
+  | Wsgi status hs => OList [OList []; ONone; OBytes (run_wsgi (fst env) status hs)]
+  end.
 
 (* ================= the property on observables ================= *)
 
@@ -38,7 +51,9 @@ Definition strip_cr (p : text) : option text :=
   end.
 Definition clean_line (l : text) : bool :=
   match l with [] => false | _ => forallb valid_hchar l end.
-Definition strict_parse (w : text) : option (text * list text) :=
+(* the CRLF framing alone: pieces, CR stripping, final blank line, no empty line inside *)
+Definition nonempty (l : text) : bool := match l with [] => false | _ => true end.
+Definition crlf_parse (w : text) : option (text * list text) :=
   match rev (split_on 10 w) with
   | [] :: pieces_rev =>
       match sequence_o (map strip_cr (rev pieces_rev)) with
@@ -46,7 +61,7 @@ Definition strict_parse (w : text) : option (text * list text) :=
           match rev lines with
           | [] :: body_rev =>
               match rev body_rev with
-              | sl :: hls => if forallb clean_line (sl :: hls) then Some (sl, hls) else None
+              | sl :: hls => if forallb nonempty (sl :: hls) then Some (sl, hls) else None
               | [] => None
               end
           | _ => None
@@ -54,6 +69,11 @@ Definition strict_parse (w : text) : option (text * list text) :=
       | None => None
       end
   | _ => None
+  end.
+Definition strict_parse (w : text) : option (text * list text) :=
+  match crlf_parse w with
+  | Some (sl, hls) => if forallb clean_line (sl :: hls) then Some (sl, hls) else None
+  | None => None
   end.
 
 (* ---- a header line must read  token ": " value  (so the first colon ends a legal name) ---- *)
@@ -107,6 +127,23 @@ Definition default_lines (env : text * text) : list text :=
 Definition framing_lines : list text :=
   [header_line (k_te, v_chunked); header_line (k_clen, dec 0)].
 
+(* routes 2 and 3 *)
+Definition pair_line (kv : text * text) : text := header_line (normalize_u (fst kv), snd kv).
+Definition hop_line (o : hop) (r : res) : list text :=
+  match o, r with
+  | HSet n v, Ok => [pair_line (n, v)]
+  | HAdd n v, Ok => [pair_line (n, v)]
+  | _, _ => []
+  end.
+Fixpoint raw_lines (hs : list hop) (rs : list res) : list text :=
+  match hs, rs with
+  | o :: hs', r :: rs' => hop_line o r ++ raw_lines hs' rs'
+  | _, _ => []
+  end.
+Definition wsgi_consts (env : text * text) : list text :=
+  [header_line (k_te, v_chunked); header_line (k_clen, dec 0); header_line (k_ctype, v_ctype);
+   header_line (k_server, fst env)].
+
 (* ---- status line: HTTP/1.1 <code> <reason>, code and reason traceable to a call ---- *)
 Definition codes_of (o : op) : list N :=
   match o with SetStatus c _ => [c] | Redirect _ p => [if p then 301 else 302] | _ => [] end.
@@ -138,28 +175,68 @@ Definition res_of_obs (o : obs) : option res :=
   | _ => None
   end.
 
-Definition block_ok (env : text * text) (ops : list op) (rs : list res) (w : text) : bool :=
-  match strict_parse w with
-  | None => false
-  | Some (sl, hls) =>
-      existsb (fun c => opt_text_eqb c sl) (status_candidates ops)
-      && forallb well_formed_header hls
-      && forallb (fun l => mem_text l (default_lines env ++ framing_lines ++ app_lines ops rs)) hls
-      && Nat.leb (List.length hls) (4 + List.length (app_lines ops rs))%nat
-  end.
+Section Checker.
+  (* [parse] = strict_parse: the property at full strength *)
+  Variable parse : text -> option (text * list text).
 
-Definition check_case (i : (text * text) * list op) (o : obs) : bool :=
-  let '(env, ops) := i in
-  match o with
-  | OList [OList ors; _; OBytes w] =>
-      match sequence_o (map res_of_obs ors) with
-      | None => false                                   (* an exception class outside the expected set *)
-      | Some rs =>
-          Nat.eqb (List.length rs) (List.length ops) &&
-          match w with
-          | [] => true                                  (* nothing reached the wire *)
-          | _ => block_ok env ops rs w
-          end
-      end
-  | _ => false
-  end.
+  Definition block_ok (env : text * text) (ops : list op) (rs : list res) (w : text) : bool :=
+    match parse w with
+    | None => false
+    | Some (sl, hls) =>
+        existsb (fun c => opt_text_eqb c sl) (status_candidates ops)
+        && forallb well_formed_header hls
+        && forallb (fun l => mem_text l (default_lines env ++ framing_lines ++ app_lines ops rs)) hls
+        && Nat.leb (List.length hls) (4 + List.length (app_lines ops rs))%nat
+    end.
+
+  (* routes 2 and 3: the start line is exactly HTTP/1.1 <code> <reason as given>; each header line
+     is the chunked marker / a WSGI default, or THE line of one accepted (name, value) pair *)
+  Definition lines_ok (c : N) (rsn : text) (allowed : list text) (bound : nat) (w : text) : bool :=
+    match parse w with
+    | None => false
+    | Some (sl, hls) =>
+        opt_text_eqb (status_line c rsn) sl
+        && forallb well_formed_header hls
+        && forallb (fun l => mem_text l allowed) hls
+        && Nat.leb (List.length hls) bound
+    end.
+
+  Definition check_gen (i : (text * text) * scenario) (o : obs) : bool :=
+    let '(env, sc) := i in
+    match o with
+    | OList [OList ors; _; OBytes w] =>
+        match sequence_o (map res_of_obs ors) with
+        | None => false                                   (* an exception class outside the expected set *)
+        | Some rs =>
+            match sc with
+            | Handler ops =>
+                Nat.eqb (List.length rs) (List.length ops) &&
+                match w with [] => true | _ => block_ok env ops rs w end
+            | Raw c rsn hs =>
+                Nat.eqb (List.length rs) (List.length hs) &&
+                match w with
+                | [] => true
+                | _ => lines_ok c rsn (header_line (k_te, v_chunked) :: raw_lines hs rs)
+                                (1 + List.length (raw_lines hs rs)) w
+                end
+            | Wsgi status hs =>
+                match w with
+                | [] => true
+                | _ => match split_sp status with
+                       | Some (cs, rsn) =>
+                           match py_int cs with
+                           | Some c => lines_ok c rsn (wsgi_consts env ++ map pair_line hs)
+                                                (4 + List.length hs) w
+                           | None => false
+                           end
+                       | None => false
+                       end
+                end
+            end
+        end
+    | _ => false
+    end.
+End Checker.
+
+(* the property, full strength: used on the implementation's observable *)
+Definition check_case := check_gen strict_parse.
